@@ -66,6 +66,7 @@ MENU = {"quick": R.MENU_QUICK, "thorough": R.MENU_THOROUGH}
 
 def bounds(tier):
     return {"depth": DEPTH[tier], "menu_size": len(MENU[tier]), "menu": MENU[tier],
+            "scenarios": SCENARIOS,
             "additional_roots": {"prefixes": ROOTS, "explored": "set/variable events only, to history length depth+1"},
             "meshes": {e[2:]: {"elements": R.MESHES[e[2:]]["elements"], "row_order": R.MESHES[e[2:]]["order"],
                                "z": R.MESHES[e[2:]]["z"]} for e in MENU[tier] if e.startswith("G:")}}
@@ -98,7 +99,21 @@ def _frame(mid, model, state=None):
     """The ONE frame object of this mesh in the current history, value columns rewritten in place for `state`."""
     import pandas as pd
     if mid not in _frames:
-        _frames[mid] = pd.DataFrame(R.raw_table(R.MESHES[mid])).set_index(["element_id", "node_id"])
+        # Every frame handed to the exporter is a boolean-mask slice of a larger frame (two phantom elements, one with a
+        # smaller and one with a larger id): its MultiIndex still carries the phantom ids as unused level values, as the
+        # frame of a user who filtered a bigger mesh does.  Anything that reads index.levels instead of the rows sees them.
+        rows = R.raw_table(R.MESHES[mid])
+        eids = [r["element_id"] for r in rows]
+        nids = [r["node_id"] for r in rows]
+        phantom = []
+        for eid, nid in ((max(eids) + 1000, max(nids) + 1000), (min(eids) - 1, min(nids) - 1)):
+            if eid >= 0 and nid >= 0:
+                rec = dict(rows[0])
+                rec.update(element_id=eid, node_id=nid)
+                phantom.append(rec)
+        big = pd.DataFrame(phantom[:1] + rows + phantom[1:]).set_index(["element_id", "node_id"])
+        keep = ~big.index.get_level_values("element_id").isin([p_["element_id"] for p_ in phantom])
+        _frames[mid] = big[keep]
     frames = model.__dict__.setdefault("_live_frames", {})
     if mid not in frames:
         frames[mid] = _frames[mid].copy()
@@ -625,10 +640,13 @@ def _frontier(tier):
     return states, replays
 
 
+SCENARIOS = [["G:strip40", "NS:P", "ES:P", "V:P:s1:DISPLACEMENT", "V:P:s1:STRESS_CAUCHY", "V:P:s2:EN"]]
+
+
 def shards(tier):
     states, replays = _frontier(tier)
     size = max(1, len(states) // 160)
-    out = []
+    out = [{"tier": tier, "scenario": sc} for sc in SCENARIOS]
     first = True
     for block in chunked(states, size):
         out.append({"tier": tier, "states": block, "frontier_replays": replays if first else 0})
@@ -637,8 +655,31 @@ def shards(tier):
 
 
 # ------------------------------------------------------------------------------------------------- shard
+def run_scenario(hist, acc):
+    """one fixed, longer history on a larger mesh: every prefix is a transition judged like any other"""
+    try:
+        for k in range(len(hist)):
+            r = _transition(hist[:k], hist[k])
+            acc.cases += 1
+            acc.transitions += 1
+            acc.states += 1
+            acc.evaluations += r["calls"] + r["chains"]
+            acc.max_depth = max(acc.max_depth, k + 1)
+            if r.get("nontrivial"):
+                acc.nontrivial += 1
+            if "full" in r:
+                acc.outcomes.add(r["full"])
+            for key, case, detail in r["viol"]:
+                acc.violation(key, case, detail)
+    finally:
+        _cleanup()
+
+
 def run_shard(shard):
     acc = Acc()
+    if "scenario" in shard:
+        run_scenario(shard["scenario"], acc)
+        return acc
     menu = MENU[shard["tier"]]
     acc.evaluations += shard["frontier_replays"]
     acc.count("frontier replays (keys only, in shards())", shard["frontier_replays"])
